@@ -9,7 +9,7 @@
 (*   "args":{"dt":n,"t":"T1","n":"t0.a"},                                  *)
 (*   "st":{"up":b,"clock":s,"timers":[s..],"targets":[..],"nbooted":n,     *)
 (*         "status":{node:".."},"nque":{node:n},"todo":{node:[..]},        *)
-(*         "exec":{node:[..]}},                                            *)
+(*         "exec":{node:[..]},"served":{node:[instant|-1 per event]}},     *)
 (*   "obs":{"err":"", "defers":n}}                                         *)
 (* timers = due instants of the reactor's pending delayed calls; exec =    *)
 (* targets of the node's task messages written to worker transports (or    *)
@@ -28,6 +28,10 @@ NodeOf(r) == [kind |-> r.kind, events |-> { EvOf(r.events[i]) : i \in DOMAIN r.e
 CfgOf(t) == [start |-> Traces[t].cfg.start,
              nodes |-> [n \in DOMAIN Traces[t].cfg.nodes |-> NodeOf(Traces[t].cfg.nodes[n])]]
 Rec(t, i) == Traces[t].steps[i]
+(* node attribute 'served', recorded per event in the order of cfg.nodes[n].events *)
+ServedOf(r) == [n \in Nodes |-> [e \in Ev(n) |->
+                  LET i == CHOOSE j \in DOMAIN Traces[tid].cfg.nodes[n].events : EvOf(Traces[tid].cfg.nodes[n].events[j]) = e
+                  IN r.st.served[n][i]]]
 
 Bind(r) ==
     /\ cfg' = cfg
@@ -42,6 +46,7 @@ Bind(r) ==
     /\ booted' = IF up' THEN UNION { { <<n, e>> : e \in BootEv(n) } : n \in Nodes } ELSE {}
     /\ env' = IF r.ev \in {"Tick", "Advance", "NewTarget"} THEN env - 1 ELSE env
     /\ lastFire' = [n \in Nodes |-> IF Fired(n) THEN clock' ELSE lastFire[n]]
+    /\ served' = ServedOf(r)
 
 Fail(name, ok) == IF ok THEN {} ELSE {name}
 
@@ -51,6 +56,7 @@ StepClauses(n) ==
     \cup Fail("C20.BootOnce",    BootOnceStep(n))
     \cup Fail("C20.Armed",       Armed(n)')
     \cup Fail("C20.Recurs",      RecursStep(n))
+    \cup Fail("C20.Once",        OnceStep(n))
 
 (* is the recorded step a step of the implementation-shaped model? *)
 ModelStep(r) ==
@@ -73,6 +79,7 @@ TraceInit ==
        /\ todo = [n \in Nodes |-> ToSet(r.st.todo[n])] /\ exec = [n \in Nodes |-> ToSet(r.st.exec[n])]
        /\ targets = ToSet(r.st.targets)
     /\ booted = {} /\ lastFire = [n \in Nodes |-> -1] /\ env = 1000000
+    /\ served = [n \in Nodes |-> [e \in Ev(n) |-> -1]]
     /\ bad = {} /\ drift = FALSE
 
 TraceNext ==
